@@ -12,7 +12,7 @@ func tokenPreamble(n int) []sim.Op {
 	var ops []sim.Op
 	for i := 0; i < n; i++ {
 		ops = append(ops,
-			sim.Op{K: "nftissue", A: i, B: 0, C: i},
+			sim.Op{K: "nftissue", A: i, B: 0, C: 0}, // the same class name and ids on every chain: maximal collision potential
 			sim.Op{K: "nftmint", A: i, B: 0, C: 0, D: 0, U: 0},
 			sim.Op{K: "nftmint", A: i, B: 0, C: 0, D: 1, U: 1},
 			sim.Op{K: "mtissue", A: i, B: 0},
